@@ -91,7 +91,23 @@ def run(chk, repo, tier):
         for node in ast.walk(f.node):
             if isinstance(node, ast.Attribute) and isinstance(node.ctx, ast.Store) and node.attr == '_wave':
                 writers.append((f, node))
-    bad = [(f, n) for f, n in writers if not (f.is_setter and f.name == 'wave')]
+    # ... and nobody writes *into* the stored grid or values (x._wave[...] = ..., x.wave[k] = ..., in-place operators): that
+    # by-passes the validation, and the arrays are shared with the caller and with spectra derived from this one
+    for f in repo.all_functions():
+        if f.module.name != 'radiometry':
+            continue
+        for node in ast.walk(f.node):
+            tgt = None
+            if isinstance(node, ast.Assign):
+                tgt = [t for t in node.targets if isinstance(t, ast.Subscript)]
+            elif isinstance(node, ast.AugAssign) and isinstance(node.target, ast.Subscript):
+                tgt = [node.target]
+            for t in tgt or []:
+                base = t.value
+                if isinstance(base, ast.Attribute) and base.attr in ('_wave', 'wave', '_value', 'value') and \
+                        isinstance(base.value, ast.Name) and base.value.id in ('self', 'spectrum', 'new', 'other'):
+                    writers.append((f, t))
+    bad = [(f, n) for f, n in writers if not (f.is_setter and f.name == 'wave' and isinstance(n, ast.Attribute))]
     chk.ob('C15-a', 'E-who-writes', SPEC, 'only the validating setter writes the grid', not bad and bool(writers),
            '; '.join(f'{f.key} at {f.loc(n)}' for f, n in bad) or f'{len(writers)} store(s), all in the setter',
            setter.loc())
@@ -485,6 +501,40 @@ def bins_form(p, fb, J):
                         return False
                 return True
             return B, term_j, count_ok
+    # whole-array arithmetic over shifted slices of the samples and the edges: bins = 0.5*(f[:-1] + f[1:])*(x[1:] - x[:-1]).
+    # Element J of a slice X[a:b:s] is X[a + s*J], of diff(X) is X[J+1] - X[J]; anything else (np.gradient, cumsum, ...)
+    # has no element of its own and stays as it is, so the comparison with the quadrature term fails on it
+    smp = p.calls(f'{SPEC}.sample')
+    if len(smp) == 1:
+        fx = smp[0].result
+        for nm, val in sorted(p.state.env.items()):
+            if not isinstance(val, Poly) or not val.terms:
+                continue
+            sl = [a for a in nf.value_atoms(val) if a[0] == 'idx' and isinstance(a[2], Slice) and Poly.atom(a[1]) == fx]
+            if not sl or any(a[0] == 'loop' for a in nf.value_atoms(val)):
+                continue
+            mapping, ops = {}, []
+            for a in nf.value_atoms(val):
+                if a[0] == 'idx' and isinstance(a[2], Slice):
+                    lo = a[2].lo if isinstance(a[2].lo, Poly) else C(0)
+                    st = a[2].step if isinstance(a[2].step, Poly) else C(1)
+                    mapping[a] = nf.index(Poly.atom(a[1]), lo + st * J)
+                    ops.append(a[2])
+                elif is_app(a, ('diff', 'ediff1d')) and len(a[2]) == 1 and isinstance(a[2][0], Poly):
+                    mapping[a] = nf.index(a[2][0], J + 1) - nf.index(a[2][0], J)
+            term_j = nf.subst_value(val, mapping)
+
+            def count_ok(method, f, x, ops=ops):
+                stride = 1 if method == 'trapz' else 2
+                M = 1 if method == 'trapz' else 2
+                for s_ in ops:
+                    o = 0 if s_.lo == NONE else s_.lo.const_value()
+                    st = 1 if s_.step == NONE else s_.step.const_value()
+                    hi = 0 if s_.hi == NONE else s_.hi.const_value()
+                    if o is None or st != stride or hi is None or not (0 <= o <= M) or hi != o - M:
+                        return False
+                return True
+            return val, term_j, count_ok
     return None
 
 
@@ -535,6 +585,74 @@ def integrate_selection_rule(chk, repo, clause):
     chk.ob(clause, 'T-comparison', fi.key, 'selects start <= w <= end (closed on both sides)', verdict,
            '; '.join(sorted(nf.fmt_atom(a) for a in sel)) +
            ('; the selection also depends on ' + ', '.join(sorted(nf.fmt_atom(a)[:70] for a in extra)[:2]) if extra else ''), fi.loc())
+    quadrature_cover_rule(chk, repo, fi, clause)
+
+
+def quadrature_cover_rule(chk, repo, fi, clause):
+    """Whatever is selected is integrated whole: one quadrature over the selected samples, or pieces over slices of them
+    that follow each other and meet in a shared sample (additivity over intervals that meet at a sample point).  A piece
+    that starts one sample after the previous one ended leaves an interval out."""
+    QUAD = ('scipy.integrate.simpson', 'scipy.integrate.simps', 'trapz', 'scipy.integrate.trapezoid', 'trapezoid',
+            'scipy.integrate.trapz', 'numpy.trapz')
+
+    def pos(v, end):
+        """slice bound -> ('s', k) counted from the start / ('e', k) counted back from the end; None if not constant"""
+        if v in (NONE, None):
+            return ('e', 0) if end else ('s', 0)
+        c = v.const_value() if isinstance(v, Poly) else None
+        if c is None:
+            return None
+        return ('s', int(c)) if c >= 0 else ('e', -int(c))
+    bad, n = [], 0
+    for method in ('simps', 'trapz'):
+        _, pi_, _ = analyse(repo, fi, config={'start': S('start'), 'end': S('end'), 'method': Const(method)})
+        for p in returns(pi_):
+            qs = [a for a in nf.value_atoms(p.ret) if is_app(a, QUAD)]
+            if not qs:
+                continue
+            n += 1
+            pieces = []
+            whole = 0
+            for a in qs:
+                args = [x for x in a[2] if isinstance(x, Poly)]
+                kws = {}
+                for x in a[2]:
+                    if isinstance(x, Tup):
+                        for pr in x.items:
+                            if isinstance(pr, Tup) and len(pr) == 2 and isinstance(pr.items[0], Const):
+                                kws[pr.items[0].value] = pr.items[1]
+                xs = kws.get('x', args[1] if len(args) > 1 else None)
+                xa = xs.single_atom() if isinstance(xs, Poly) else None
+                if xa is not None and xa[0] == 'idx' and isinstance(xa[2], Slice) and xa[2].step in (NONE, None):
+                    lo, hi = pos(xa[2].lo, False), pos(xa[2].hi, True)
+                    if lo is None or hi is None:
+                        pieces = None
+                        break
+                    pieces.append((lo, hi, fmt(xs)[:50]))
+                else:
+                    whole += 1
+            if pieces is None or (not pieces and whole == 1):
+                continue
+            if whole and pieces:
+                bad.append(f'[{method}] the whole selection and slices of it are both integrated')
+                continue
+            # first sample of a piece / last sample of a piece as (origin, offset); consecutive pieces share a sample
+            def first(pc):
+                return pc[0]
+
+            def last(pc):
+                o, k = pc[1]
+                return ('e', k + 1) if o == 'e' else ('s', k - 1)
+            order = sorted(pieces, key=lambda pc: (pc[0][0] == 'e', pc[0][1] if pc[0][0] == 's' else -pc[0][1]))
+            if first(order[0]) != ('s', 0) or last(order[-1]) != ('e', 1):
+                bad.append(f'[{method}] the pieces {", ".join(pc[2] for pc in order)} do not span the selection from its first to its last sample')
+                continue
+            for a_, b_ in zip(order, order[1:]):
+                if last(a_) != first(b_):
+                    bad.append(f'[{method}] {a_[2]} ends on sample {last(a_)} and {b_[2]} starts on sample {first(b_)}: the interval '
+                               'between them is left out')
+    chk.ob(clause, 'N-additive', fi.key, 'the selected samples are integrated whole (pieces meet in a shared sample)',
+           (not bad) if n else None, '; '.join(bad[:2]) or f'{n} path(s): one quadrature over the selection', fi.loc())
 
 
 
